@@ -31,6 +31,7 @@ static int logicalId[64];
 struct Obj : public RefCount::Object
 {
   int id;
+  RefCount::Ptr<Obj> next;                    // payloads 1 and 2 hold a handle to a successor (3 and 4): na / nb walk it
   static int destroyed[8];
   Obj(int id) : id(id) {}
   ~Obj() { ++destroyed[id]; sched_event("\"op\":\"destroyed\",\"p\":%d", id); }
@@ -211,6 +212,8 @@ static void run_prog(void* arg)
       if(!strcmp(f, "aeqa")) { if(X) { RefCount::Ptr<Obj>& self = *X; *X = self; } }
       else if(!strcmp(f, "aeqb") || !strcmp(f, "beqa")) { if(X && Y) *X = *Y; }
       else if(f[0] == 'c') { if(X) *X = (Obj*)0; }
+      // na / nb: p = p->next - the source handle is a member of the object the assignment may release
+      else if(f[0] == 'n') { if(X && *X) *X = (*X)->next; }
       else if(!strcmp(f, "sw")) { if(H[t].p[0] && H[t].p[1]) H[t].p[0]->swap(*H[t].p[1]); }
       else if(f[0] == 'd') { delete X; X = 0; }
     }
@@ -240,7 +243,7 @@ extern "C" void scenario_setup(void)
       else { HashMap<String, Variant> h1, h2; h1.append(e1, Variant(e1)); h2.append(e2, Variant(e2)); v1 = h1; v2 = h2; }
     }
     RefCount::Ptr<Obj> o1, o2;
-    if(!strcmp(kind, "ptr")) { o1 = new Obj(1); o2 = new Obj(2); }
+    if(!strcmp(kind, "ptr")) { o1 = new Obj(1); o2 = new Obj(2); o1->next = new Obj(3); o2->next = new Obj(4); }
     Xml::Variant x1(m1), x2(m2);
     if(!strcmp(kind, "xelem")) { Xml::Element e1, e2; e1.type = String("p"); e2.type = String("q"); e1.content.append(Xml::Variant(m1)); e2.content.append(Xml::Variant(m2)); x1 = Xml::Variant(e1); x2 = Xml::Variant(e2); }
     for(int t = 1; t <= nthreads && t <= MAXT; ++t)
@@ -269,7 +272,7 @@ extern "C" void scenario_finish(void)
   // every handle is gone: every payload must have been released - exactly once (pointee destructor count), and
   // nothing may be left allocated (LeakSanitizer)
   if(!strcmp(kind, "ptr"))
-    for(int p = 1; p <= 2; ++p)
+    for(int p = 1; p <= 4; ++p)
       if(Obj::destroyed[p] != 1) sched_fail("payload %d destroyed %d times after its last handle has gone", p, Obj::destroyed[p]);
   if(__lsan_do_recoverable_leak_check()) sched_fail("payload leaked (LeakSanitizer)");
 }
